@@ -28,6 +28,9 @@ THEOREMS = [
     "roles_index_cursor_enumerates_holders",
     "child_store_registration_order_irrelevant",
     "delete_fans_out_to_every_child_store",
+    "delete_where_exact",
+    "delete_where_through_child_spares_plain_parents",
+    "reject_either_route_same",
 ]
 
 
@@ -40,7 +43,7 @@ def parse_case(case):
         ops = []
         for o in tx.split(","):
             p = o.split("/")
-            ops.append({"kind": p[0], "sel": int(p[1]), "id": int(p[2]), "src": o})
+            ops.append({"kind": p[0], "sel": int(p[1]), "id": int(p[2]) if p[0] != "w" else 0, "src": o})
         txs.append(ops)
     return txs
 
@@ -144,7 +147,7 @@ def describe(case, impl, model, spec):
         d["impl_vs_spec"] = diff_fields(si[ds] if ds < len(si) else "", ss[ds] if ds < len(ss) else "")
     if dm is not None:
         d["impl_vs_model"] = diff_fields(si[dm] if dm < len(si) else "", sm[dm] if dm < len(sm) else "")
-    d["legend"] = ("per transaction: <results> commit|abort E <store><c|u|d><id> (entity events delivered) F <store>.<id>=name/roles/child (FindById) Q <store>.<query>=ids "
+    d["legend"] = ("ops: c/<store>/<id>/<name>/<roles>/<child> create, u/…/<checker> update or patch, d/<store>/<id> DeleteById, w/<store>/<filter> DeleteWhere; name 9 and more than three roles are refused by the parent strategy (invalid:name / invalid:roles); per transaction: <results> commit|abort E <store><c|u|d><id> (entity events delivered) F <store>.<id>=name/roles/child (FindById) Q <store>.<query>=ids "
                    "(QueryIds true, name=v1, anyOf(roles)=r1, true sort by name) I <store>.i / .v (IterateIds / IterateValidIds) "
                    "X n.<v> r.<v> c.<v> (index reads) D bucket dump; stores 0=A 1=A1(plain child) 2=A2(extended child); "
                    "k cases end with a segment K <item>=<observation>: <store>/i|v/<filter>/<steps> = Current() (- invalid) after opening the "
@@ -156,7 +159,8 @@ def describe(case, impl, model, spec):
 
 
 RULE = ("histories of 4-12 transactions (1-3 operations each; first error aborts the transaction) of create / update / "
-        "patch (field checker over name, roles, child field) / delete issued through the parent store A, the plain "
+        "patch (field checker over name, roles, child field) / DeleteById / DeleteWhere (filters true, name=v1, anyOf(roles)=r1; 1 delete in 4) "
+        "with shared-field values the parent entity strategy refuses mixed in (reserved name 1 in 20, four roles 1 in 14) issued through the parent store A, the plain "
         "child store A1 and the extended child store A2 over 4 ids (+ blank), 4 names (+ empty), 3 roles, child values "
         "nil/empty/4 values; 54 fixed route-pair histories + random ones (every history may, and 1 in 6 creates "
         "deliberately seek to, create through a child store over an existing parent-only id); after every transaction the entity events delivered to the three stores' listeners, FindById x 3 stores x 4 ids, 4 queries x 3 stores, "
